@@ -6,6 +6,16 @@ Require Import Lia ZifyN ZifyBool ZifyNat.
 Require Import ZArith.
 Open Scope N_scope.
 
+(* ---------- fixed vocabulary of the translation (tools/rustfun_tr.py emits these names) ---------- *)
+(* `a..b`, `.iter().enumerate()`, `==` on Option<integer>, and a generic parameter `A: Automaton` *)
+Definition src_range (a b : N) : list N := map N.of_nat (seq (N.to_nat a) (N.to_nat (b - a))).
+Definition src_enumerate (l : list N) : list (N * N) := combine (src_range 0 (len l)) l.
+Definition src_opt_eqb (a b : option N) : bool :=
+  match a, b with Some x, Some y => x =? y | None, None => true | _, _ => false end.
+Record src_aut := { src_St : Type; src_start : src_St; src_is_match : src_St -> bool; src_can_match : src_St -> bool;
+                    src_will_always_match : src_St -> bool; src_accept : src_St -> N -> src_St }.
+Definition is_bytes (l : list N) : bool := forallb (fun b => b <? 256) l.
+
 (* ---------- finite domains ---------- *)
 Definition bytes256 : list N := map N.of_nat (seq 0 256).
 Lemma in_bytes256 : forall b, b < 256 -> In b bytes256.
@@ -42,7 +52,16 @@ Class SfEq (A B : Type) := sf_eqb : A -> B -> bool.
 #[export] Instance SfEq_N : SfEq N N := N.eqb.
 #[export] Instance SfEq_bool : SfEq bool bool := Bool.eqb.
 #[export] Instance SfEq_unit : SfEq unit unit := fun _ _ => true.
-#[export] Instance SfEq_opt : SfEq (option N) (option N) := opt_eqb.
+#[export] Instance SfEq_opt {A B} `{SfEq A B} : SfEq (option A) (option B) :=
+  fun a b => match a, b with Some x, Some y => sf_eqb x y | None, None => true | _, _ => false end.
+#[export] Instance SfEq_prod {A B C D} `{SfEq A C} `{SfEq B D} : SfEq (A * B) (C * D) :=
+  fun a b => sf_eqb (fst a) (fst b) && sf_eqb (snd a) (snd b).
+#[export] Instance SfEq_nat : SfEq nat nat := Nat.eqb.
+#[export] Instance SfEq_list {A B} `{SfEq A B} : SfEq (list A) (list B) :=
+  fix go (a : list A) (b : list B) : bool :=
+    match a, b with [] , [] => true | x :: a', y :: b' => sf_eqb x y && go a' b' | _, _ => false end.
+#[export] Instance SfEq_cmp : SfEq comparison comparison :=
+  fun a b => match a, b with Eq, Eq | Lt, Lt | Gt, Gt => true | _, _ => false end.
 #[export] Instance SfEq_res {A B} `{SfEq A B} : SfEq (res A) (res B) :=
   fun a b => match a, b with Ok x, Ok y => sf_eqb x y | Panic, Panic => true | Err _, Err _ => true | _, _ => false end.
 (* (error payloads are not compared: the translated functions never build one themselves) *)
@@ -108,3 +127,45 @@ Ltac tie_leaf :=
   first [ reflexivity | exfalso; lia | lia | apply f_equal; lia | do 2 apply f_equal; lia ].
 Ltac tie_arith :=
   tie_reduce; size_facts; bound_muls; repeat (tie_case; try (exfalso; lia)); tie_leaf.
+
+(* ---------- loops: enumerate as an explicit recursion, and the little-endian accumulation ---------- *)
+Fixpoint enum_from (j : nat) (l : list N) : list (N * N) :=
+  match l with [] => [] | b :: r => (N.of_nat j, b) :: enum_from (S j) r end.
+Lemma combine_seq_enum : forall l j, combine (map N.of_nat (seq j (length l))) l = enum_from j l.
+Proof. induction l as [|b r IH]; intros j; cbn [length seq map combine enum_from]; [reflexivity|]. now rewrite IH. Qed.
+Lemma src_enumerate_from : forall l, src_enumerate l = enum_from 0 l.
+Proof.
+  intros l. unfold src_enumerate, src_range, len. rewrite N.sub_0_r, Nat2N.id. change (N.to_nat 0) with 0%nat.
+  apply combine_seq_enum.
+Qed.
+Lemma fold_left_ext : forall {A B} (f g : A -> B -> A), (forall a b, f a b = g a b) ->
+  forall l a, fold_left f l a = fold_left g l a.
+Proof. intros A B f g H l. induction l as [|x r IH]; intros a; cbn [fold_left]; [reflexivity|]. now rewrite H, IH. Qed.
+Lemma lor_shiftl_add : forall a b k, a < 2 ^ k -> N.lor a (N.shiftl b k) = a + b * 2 ^ k.
+Proof.
+  intros a b k Ha. rewrite N.shiftl_mul_pow2.
+  assert (Hl : N.land a (b * 2 ^ k) = 0).
+  { apply N.bits_inj. intros i. rewrite N.land_spec, N.bits_0.
+    destruct (N.lt_ge_cases i k) as [Hi|Hi].
+    - rewrite N.mul_pow2_bits_low by assumption. apply Bool.andb_false_r.
+    - destruct (N.eq_dec a 0) as [->|Hn]; [now rewrite N.bits_0|].
+      rewrite (N.bits_above_log2 a i); [reflexivity|].
+      apply N.log2_lt_pow2; [lia|]. eapply N.lt_le_trans; [exact Ha|]. apply N.pow_le_mono_r; lia. }
+  rewrite <- N.lxor_lor by assumption. symmetry. now apply N.add_nocarry_lxor.
+Qed.
+(* `n = n | (b as u64) << (8 * i)` over an enumerated byte list = little-endian value *)
+Fixpoint le_val (l : list N) : N := match l with [] => 0 | b :: r => b + 256 * le_val r end.
+Lemma fold_lor_le : forall l j acc, is_bytes l = true -> acc < 2 ^ (8 * N.of_nat j) ->
+  fold_left (fun n (e : N * N) => N.lor n (N.shiftl (snd e) (8 * fst e))) (enum_from j l) acc
+  = acc + 2 ^ (8 * N.of_nat j) * le_val l.
+Proof.
+  induction l as [|b r IH]; intros j acc Hb Ha; cbn [enum_from fold_left le_val fst snd].
+  - lia.
+  - cbn [is_bytes forallb] in Hb. apply Bool.andb_true_iff in Hb. destruct Hb as [Hb Hr]. apply N.ltb_lt in Hb.
+    rewrite lor_shiftl_add by assumption.
+    assert (Hp : 2 ^ (8 * N.of_nat (S j)) = 2 ^ (8 * N.of_nat j) * 256).
+    { replace (8 * N.of_nat (S j)) with (8 * N.of_nat j + 8) by lia. rewrite N.pow_add_r. reflexivity. }
+    rewrite IH; [|assumption|].
+    + rewrite Hp. lia.
+    + rewrite Hp. nia.
+Qed.
